@@ -1,0 +1,40 @@
+//go:build verif
+
+// Contracts for the connection loop (server.go: handleConnectionLoop), serving C15 (each decodable call is
+// answered at most once, a connection whose stream cannot be decoded is closed) and C14 (the refusal built by the
+// loop itself echoes the XID of the call it refuses). Checked by /verif/govc (comment-only file).
+//   ioCalls / ioReplies   ghost counters of connIO.ReadCall successes and connIO.WriteReply calls
+// connIO is the package's own interface; these are the contracts of its two methods as the loop uses them
+// (the implementations recordMarkingConnIO.ReadCall/WriteReply are verified against RFC 1831 framing under C28/C13).
+package absnfs
+
+//@ ghost ioCalls int
+//@ ghost ioReplies int
+
+//@ func connIO.ReadCall(c)
+//@ assumed
+//@ modifies ioCalls, extstate, rpos
+//@ ensures isnil(result2) <==> result0 != nil
+//@ ensures ioCalls == old(ioCalls) + ite(isnil(result2), 1, 0)
+//@ func connIO.WriteReply(c, reply)
+//@ assumed
+//@ modifies ioReplies, extstate, wlen, wdata
+//@ ensures ioReplies == old(ioReplies) + 1
+
+//@ func Server.handleConnectionLoop
+//@ prop C15 C14 C28 C17
+//@ partial
+//@ requires s != nil
+// A-LOCKINV (assumed, as before this function came under contract): the monitor invariant of s.connMutex is
+// re-established by every critical section (proved under C17) and the live tuning snapshot stays non-nil (C24)
+//@ free ensures connInv(s) && (s.handler != nil ==> curTuning(s.handler) != nil)
+//@ modifies everything, allghosts, locks, once
+// one reply at most per call read: at the head of every iteration the replies written do not exceed the calls read
+//@ loop 1 invariant ioReplies - old(ioReplies) <= ioCalls - old(ioCalls)
+// a reply is written only for a call that was read in this iteration and not yet answered
+//@ callassert connIO.WriteReply : [answers-a-pending-call] ioReplies - old(ioReplies) < ioCalls - old(ioCalls)
+// the refusal of a rate-limited call (first WriteReply of the loop) carries that call's header: XID echo
+//@ callassert connIO.WriteReply#1 : [refusal-echoes-the-call] arg1 != nil && arg1.Header == call.Header && arg1.Status == 1
+// however the loop ends (undecodable stream, read or write error, shutdown), the connection is closed
+//@ ensures [connection-closed-on-exit] connClosed[valof(conn)]
+//@ ensures [never-more-replies-than-calls] ioReplies - old(ioReplies) <= ioCalls - old(ioCalls)
